@@ -17,10 +17,15 @@
     BeginOK cfg m  : m.f.get? 8 = some (bsName cfg.bs)
     CompOK cfg m   : 49 = cfg.target, 56 = cfg.sender, both non-empty
     TimeOK m       : 52 is a timestamp d with -120 < d < 120 (seconds relative to the clock)
-    NoEmpty m      : no field with an empty value (the default validator)
-    GateMsg cfg m  = BeginOK ∧ CompOK ∧ NoEmpty;   TimeGate s m = skipLatency ∨ replay in progress (curResend s) ∨ TimeOK m
+    Valid cfg m    : validate cfg m = none — the configured validator (`cfg.validator`: ValidateFieldsOutOfOrder,
+                     RejectInvalidMessage, AllowUnknownMsgFields, ValidateUserDefinedFields, ValidateFieldsHaveValues and the
+                     data dictionaries, if any) has no objection.  `validate` runs the validator model of C15
+                     (Qfx/Model/Validate.lean `validate` / `validateFieldContent`) on the parsed message (`toPMsg`: the wire
+                     fields with BodyLength and CheckSum, filed into header / body / trailer by tag class as the parser does).
+    GateMsg cfg m  = BeginOK ∧ CompOK ∧ Valid;   TimeGate s m = skipLatency ∨ replay in progress (curResend s) ∨ TimeOK m
 -/
 import Qfx.Lemmas.SessC06T
+import Qfx.Lemmas.SessValid
 open Qfx Qfx.Sess Qfx.SessSpec
 
 /-! ## the gate -/
@@ -58,10 +63,12 @@ theorem C06_gate_logon (s : Sess) (m : InMsg) (h0 : Obs.onLogon ∉ s.log) (h : 
       ∃ n, getInt m 34 = .val n ∧ (if logonResets s m then 1 else s.store.target) ≤ n :=
   gate_logon s m h0 h
 
-/-- **gate, every history.**  Every configuration, initial counters and finite event history: each FromApp, FromAdmin
-    and OnLogon observation of the whole trace is about some inbound message of that history (same MsgSeqNum text, same
-    kind) that has the session's BeginString, mirrored non-empty CompIDs and no empty field; a FromAdmin for a Logon is only
-    guaranteed validation (it precedes the session-level checks, as properties.jsonl exempts).  The SendingTime clause
+/-- **gate, every history (validation included).**  Every configuration — every validator setting, with or without data
+    dictionaries —, initial counters and finite event history: each FromApp, FromAdmin and OnLogon observation of the whole
+    trace is about some inbound message of that history (same MsgSeqNum text, same kind) that has the session's BeginString,
+    mirrored non-empty CompIDs and that the configured validator accepts (`GateMsg`, whose third component is
+    `Valid cfg m`); a FromAdmin for a Logon is only guaranteed validation (it precedes the session-level checks, as
+    properties.jsonl exempts).  The SendingTime clause
     depends on the state at the moment of delivery (replay in progress), which observations do not record: it is proved for
     every state at the two delivery sites (`C06_gate_verify`, `C06_gate_logon`), which are the only places that emit these
     observations (this theorem's proof goes through every model function). -/
@@ -104,6 +111,114 @@ theorem C06_time_gate_all_histories (cfg : Cfg) (s0 t0 : Int) (evs : List Ev) (h
   · rintro q t rfl; exact hc
   · rintro k q rfl; exact hc
   · rintro rfl; exact hc
+
+
+/-! ## the validation gate (the configured validator: five settings, data dictionaries)
+
+`validate cfg m` is the verdict of `s.Validator.Validate(msg)`: `none`, or the validator's `(reason, RefTagID)` as a plain
+session-level reject.  `verifyMsgAgainstAppImpl` runs it before `FromAdmin` / `FromApp`, on every path that ends in a
+callback (`verifySelect … true` for every kind but Logon, `handleLogon` for a Logon). -/
+
+/-- **gate, validation, delivery site.**  A message the validator rejects leaves the session untouched by the
+    verification pipeline, whatever the other checks say: no callback, no observation at all. -/
+theorem C06_gate_validation_site (s : Sess) (m : InMsg) (th tl : Bool) (h : validate s.cfg m ≠ none) :
+    (verifySelect s m th tl true).1 = s :=
+  C06_gate_verify_blocked s m th tl (fun hg => h hg.1.valid)
+
+/-- and when the checks in front of it pass, the verdict handed to `processReject` is the validator's own -/
+theorem C06_gate_validation_verdict (s : Sess) (m : InMsg) (th tl : Bool) (r : Rej) (hb : BeginOK s.cfg m) (hc : CompOK s.cfg m)
+    (ht : TimeGate s m) (hs : SeqGate s m th tl) (hv : validate s.cfg m = some r) :
+    verifySelect s m th tl true = (s, some r) := by
+  rw [verifySelect_complete s m th tl true hb hc ht hs]
+  simp only [if_true]
+  unfold verifyAppImpl
+  rw [hv]
+
+/-- **gate, validation, Logon site.**  A Logon the validator rejects is not shown to FromAdmin and establishes nothing:
+    `handleLogon` reports the validator's verdict and the session is untouched (but for the store refresh of an acceptor
+    with RefreshOnLogon, which precedes validation in the code). -/
+theorem C06_gate_validation_logon (s : Sess) (m : InMsg) (r : Rej) (hv : validate s.cfg m = some r) :
+    ((handleLogon s m).1 = s ∨ (handleLogon s m).1 = s.emit .refresh)
+    ∧ ((handleLogon s m).2 = some (.rej r) ∨ (handleLogon s m).2 = some .other) := by
+  unfold handleLogon
+  split
+  · exact ⟨Or.inl rfl, Or.inr rfl⟩
+  · generalize hs1 : (if (!s.cfg.initiator && s.cfg.refreshOnLogon) = true then s.emit Obs.refresh else s) = s1
+    have hc1 : s1.cfg = s.cfg := by rw [← hs1]; split <;> rfl
+    have h1 : s1 = s ∨ s1 = s.emit .refresh := by rw [← hs1]; split; exact Or.inr rfl; exact Or.inl rfl
+    simp only []
+    unfold verifyAppImpl
+    rw [hc1, hv]
+    exact ⟨h1, Or.inl rfl⟩
+
+/-- **gate, validation, every history.**  Every configuration (validator settings and dictionaries included), initial
+    counters and finite event history: each FromApp, each FromAdmin — a Logon's too — and each OnLogon of the whole trace is
+    about an inbound message of that history (same MsgSeqNum text, same kind) on which the validator has no objection.
+    Contrapositive: a message on which the validator model rejects yields no callback observation for it. -/
+theorem C06_gate_validation (cfg : Cfg) (s0 t0 : Int) (evs : List Ev) :
+    ∀ o ∈ traceOf (initSess cfg s0 t0) evs,
+      (∀ q t, o = .fromApp q t → ∃ m ∈ msgsOf evs, seqText m = q ∧ isAdminKind (kindOf m) = false ∧ validate cfg m = none) ∧
+      (∀ k q, o = .fromAdmin k q → ∃ m ∈ msgsOf evs, seqText m = q ∧ kindOf m = k ∧ validate cfg m = none) ∧
+      (o = .onLogon → ∃ m ∈ msgsOf evs, kindOf m = "A" ∧ validate cfg m = none) := by
+  intro o ho
+  have hq := C06_gate_all_histories cfg s0 t0 evs o ho
+  refine ⟨?_, ?_, ?_⟩
+  · rintro q t rfl
+    obtain ⟨m, hm, h1, h2, hg⟩ := hq
+    exact ⟨m, hm, h1, h2, hg.valid⟩
+  · rintro k q rfl
+    obtain ⟨m, hm, h1, h2, hv, _⟩ := hq
+    exact ⟨m, hm, h1, h2, hv⟩
+  · rintro rfl
+    obtain ⟨m, hm, h1, hg, _⟩ := hq
+    exact ⟨m, hm, h1, hg.valid⟩
+
+/-- in the words of the property: when the validator rejects every inbound message of a history, nothing reaches the
+    application or the administrative callback (not even a Logon) and no session is established, ever -/
+theorem C06_nothing_without_validation (cfg : Cfg) (s0 t0 : Int) (evs : List Ev) (h : ∀ m ∈ msgsOf evs, validate cfg m ≠ none) :
+    ∀ o ∈ traceOf (initSess cfg s0 t0) evs, isCb o = false := by
+  intro o ho
+  obtain ⟨h1, h2, h3⟩ := C06_gate_validation cfg s0 t0 evs o ho
+  cases o with
+  | fromApp q t => obtain ⟨m, hm, _, _, hv⟩ := h1 q t rfl; exact absurd hv (h m hm)
+  | fromAdmin k q => obtain ⟨m, hm, _, _, hv⟩ := h2 k q rfl; exact absurd hv (h m hm)
+  | onLogon => obtain ⟨m, hm, _, hv⟩ := h3 rfl; exact absurd hv (h m hm)
+  | _ => rfl
+
+/-- **reaction to a validator reject.**  Every state, every kind but Logon (a SequenceReset: readable GapFillFlag): a message
+    whose BeginString, CompIDs and SendingTime are in order, carrying the expected MsgSeqNum, on which the validator reports
+    `(reason, refTag)` is answered with a session-level Reject carrying exactly that reason and tag, and its sequence number
+    is consumed (the validator's reasons are 0 1 2 4 5 6 11 13 14 16, never the two that end the session with a Logout:
+    `validate_reason_ok`, proved through every stage of the validator model). -/
+theorem C06_reaction_validation (s : Sess) (m : InMsg) (reason : Nat) (refTag : Option Nat) (hk : kindOf m ≠ "A")
+    (h4 : kindOf m = "4" → getBool m 123 ≠ .garbled) (hb : BeginOK s.cfg m) (hc : CompOK s.cfg m) (ht : TimeGate s m)
+    (hn : getInt m 34 = .val s.store.target) (hv : validate s.cfg m = some (.plain reason refTag false)) :
+    inSessionFixMsgIn s m = (incrTarget (doReject s m reason refTag false), .inSession) := by
+  have hr := validate_reason_ok hv
+  have hs : ∀ th tl, SeqGate s m th tl := fun _ _ => ⟨fun _ => ⟨_, hn, Int.le_refl _⟩, fun _ => ⟨_, hn, Int.le_refl _⟩⟩
+  rw [inSession_of_reject s m _ hk h4 (fun th tl => C06_gate_validation_verdict s m th tl _ hb hc ht (hs th tl) hv)]
+  unfold processReject
+  have h910 : (reason == 9 || reason == 10) = false := by simp [hr.1, hr.2]
+  simp only [h910, Bool.false_eq_true, if_false]
+
+/-- what the validator objects to is always a plain session-level reject (never a business reject, never a sequence or
+    Logon verdict): the hypothesis `hv` of `C06_reaction_validation` covers every rejection -/
+theorem C06_validation_verdict_shape (cfg : Cfg) (m : InMsg) (r : Rej) (h : validate cfg m = some r) :
+    ∃ reason refTag, r = .plain reason refTag false :=
+  validate_plain h
+
+/-- without a data dictionary the validator is `validateFieldContent` alone — under ITS two settings -/
+theorem C06_validation_default (cfg : Cfg) (m : InMsg) (h : cfg.validator.app = none) :
+    validate cfg m = rejOfV (
+      if !(toPMsg cfg.validator.tr m).hdr.contains 35 then Validate.rej 1 35
+      else Validate.validateFieldContent (toPMsg cfg.validator.tr m) cfg.validator.settings.checkHaveValues cfg.validator.settings.checkOrder) :=
+  validate_noDict cfg m h
+
+/-- with a data dictionary it is the validator of C15 on the parsed message, under all five settings -/
+theorem C06_validation_dictionary (cfg : Cfg) (m : InMsg) (app : Validate.VDict) (h : cfg.validator.app = some app) :
+    validate cfg m = rejOfV (Validate.validate app cfg.validator.tr cfg.validator.settings (toPMsg cfg.validator.tr m)) := by
+  unfold validate runValidator
+  rw [h]
 
 /-! ## the reactions (decision table, one theorem per row)
 
@@ -334,6 +449,19 @@ theorem C06_reject_reason_fields (cfg : Cfg) (m : InMsg) (reason : Nat) (refTag 
   · exact (rejectMsg_get_tail cfg m reason refTag business 372 (by decide)).trans h.2.2.1
   · exact (rejectMsg_get_tail cfg m reason refTag business 380 (by decide)).trans h.2.2.2
 
+/-- **the Reject written carries the validator's reason and tag**: 35=3, from FIX.4.2 on 373 = reason (left out by FIX.4.2
+    itself above 11: 13 "tag appears more than once", 14 "tag specified out of required order", 16 "incorrect NumInGroup") and
+    371 = the tag the validator names; 372 = the rejected MsgType; 45 = the rejected MsgSeqNum -/
+theorem C06_reaction_validation_reject (cfg : Cfg) (m : InMsg) (reason : Nat) (refTag : Option Nat) :
+    let r := rejectMsg cfg m reason refTag false
+    r.kind = "3"
+    ∧ r.f.get? 373 = (if cfg.bs ≥ 2 ∧ ¬ (reason > 11 ∧ cfg.bs = 2) then some (toString reason) else none)
+    ∧ r.f.get? 371 = (if cfg.bs ≥ 2 then refTag.map toString else none)
+    ∧ r.f.get? 45 = (match getInt m 34 with | .val n => some (toString n) | _ => none) := by
+  intro r
+  obtain ⟨h1, h2, h3, _, _⟩ := C06_reject_reason_fields cfg m reason refTag false
+  refine ⟨by simpa using h1, by simpa using h2, by simpa using h3, C06_reject_refseq cfg m reason refTag false⟩
+
 /-! ## non-vacuity (evaluated by the interpreter at build time; String functions do not reduce in the kernel) -/
 
 /-- a live session: acceptor FIX.4.2 SND←TGT after connect and an accepted Logon (expected inbound 2, next outbound 2) -/
@@ -373,6 +501,75 @@ def c06React (f : Fields) : List (String × Int × Fields) × List Obs × Int ×
           (34, "1"), (52, "@500"), (98, "0"), (108, "30")] }), .incomingMsg (some { f := [(8, "FIX.4.2"), (35, "D"), (49, "TGT"),
           (56, "SND"), (34, "2"), (52, "@500")] })]).filter isCb == [.fromAdmin "A" "1"]
 #guard (traceOf (initSess {} 1 1) [.connect, .incomingMsg (some demoLogon)]).filter isCb == [.fromAdmin "A" "1", .onLogon]
+-- ### the validation gate is about real behaviour (a hand-built dictionary: header, trailer, Logon, Heartbeat, NewOrderSingle
+-- with Symbol (55) required, Side (54) enumerated 1/2, the scripted verdict 9001)
+def c06Dict : Validate.VDict :=
+  let fld (t : Nat) (req : Bool) : Dict.Part := .fld (.mk t req [] [])
+  let hdr := Dict.newMessageDef ([8, 9, 35, 49, 56, 34, 52].map (fld · true) ++ [43, 122, 50].map (fld · false))
+  let trl := Dict.newMessageDef [fld 10 true]
+  let msgD := Dict.newMessageDef [fld 55 true, fld 54 false, fld 9001 false]
+  let msgA := Dict.newMessageDef [fld 98 true, fld 108 true]
+  let msg0 := Dict.newMessageDef [fld 112 false]
+  { msg? := fun mt => if mt == [68] then some msgD else if mt == [65] then some msgA else if mt == [48] then some msg0 else none
+    header := some hdr
+    trailer := some trl
+    ftype := fun t =>
+      if t == 54 then some { proto := some .str, enums := [[49], [50]] }
+      else if [9, 34, 98, 108].contains t then some { proto := some .int, enums := [] }
+      else if [52, 122].contains t then some { proto := some .ts, enums := [] }
+      else if t == 43 then some { proto := some .bool, enums := [] }
+      else if [8, 35, 49, 56, 10, 55, 112, 50, 9001].contains t then some { proto := some .str, enums := [] }
+      else none }
+def c06CfgV (st : Validate.Settings := Validate.defaultSettings) (dict : Bool := true) : Cfg :=
+  { validator := { app := if dict then some c06Dict else none, settings := st } }
+def c06LiveV (cfg : Cfg) : Sess := runEvents (initSess cfg 1 1) [.connect, .incomingMsg (some demoLogon)]
+def c06ReactV (cfg : Cfg) (f : Fields) : List (String × Int × Fields) × List Obs × Int × String :=
+  let r := step (c06LiveV cfg) (.incomingMsg (some { f := f }))
+  (c06WiresOf r.2.1, r.2.1.filter isCb, r.1.store.target, r.1.st.name)
+def c06Hdr (kind : String) (seq : String := "2") : Fields := [(8, "FIX.4.2"), (35, kind), (49, "TGT"), (56, "SND"), (34, seq), (52, "@0")]
+
+#guard (c06LiveV (c06CfgV)).st.name == "InSession"      -- the Logon (98, 108) conforms to the dictionary
+-- a conforming order is delivered; the same order without the required Symbol, with a Side outside the enumeration, with a
+-- tag the dictionary does not know, with a tag not defined for the type, with a repeated tag: Reject naming (reason, tag),
+-- nothing delivered, the number consumed
+#guard c06ReactV c06CfgV (c06Hdr "D" ++ [(55, "IBM"), (54, "1")]) == ([], [.fromApp "2" 2], 3, "InSession")
+#guard c06ReactV c06CfgV (c06Hdr "D" ++ [(54, "1")])
+  == ([("3", 2, [(373, "1"), (371, "55"), (372, "D"), (45, "2")])], [], 3, "InSession")
+#guard c06ReactV c06CfgV (c06Hdr "D" ++ [(55, "IBM"), (54, "9")])
+  == ([("3", 2, [(373, "5"), (371, "54"), (372, "D"), (45, "2")])], [], 3, "InSession")
+#guard c06ReactV c06CfgV (c06Hdr "D" ++ [(55, "IBM"), (207, "zz")])
+  == ([("3", 2, [(373, "0"), (371, "207"), (372, "D"), (45, "2")])], [], 3, "InSession")
+#guard c06ReactV c06CfgV (c06Hdr "D" ++ [(55, "IBM"), (112, "x")])
+  == ([("3", 2, [(373, "2"), (371, "112"), (372, "D"), (45, "2")])], [], 3, "InSession")
+#guard c06ReactV c06CfgV (c06Hdr "D" ++ [(55, "IBM"), (55, "IBM")])
+  == ([("3", 2, [(371, "55"), (372, "D"), (45, "2")])], [], 3, "InSession")          -- reason 13: no 373 at FIX.4.2
+-- the scripted callback is only asked when validation passed: 9001=rej on a conforming order is the application's reject …
+#guard c06ReactV c06CfgV (c06Hdr "D" ++ [(55, "IBM"), (9001, "rej")])
+  == ([("3", 2, [(373, "5"), (371, "9001"), (372, "D"), (45, "2")])], [.fromApp "2" 2], 3, "InSession")
+-- … and is not even asked on a defective one
+#guard c06ReactV c06CfgV (c06Hdr "D" ++ [(54, "1"), (9001, "rej")])
+  == ([("3", 2, [(373, "1"), (371, "55"), (372, "D"), (45, "2")])], [], 3, "InSession")
+-- the settings matter: RejectInvalidMessage=N lets the bad Side through, AllowUnknownMsgFields=Y the unknown tag
+#guard c06ReactV (c06CfgV { Validate.defaultSettings with rejectInvalid := false }) (c06Hdr "D" ++ [(55, "IBM"), (54, "9")])
+  == ([], [.fromApp "2" 2], 3, "InSession")
+#guard c06ReactV (c06CfgV { Validate.defaultSettings with allowUnknown := true }) (c06Hdr "D" ++ [(55, "IBM"), (207, "zz")])
+  == ([], [.fromApp "2" 2], 3, "InSession")
+-- without a dictionary: a header field behind a body field is refused under ValidateFieldsOutOfOrder (reason 14) and passes
+-- without it; an empty value likewise under ValidateFieldsHaveValues
+#guard c06ReactV (c06CfgV Validate.defaultSettings false) (c06Hdr "D" ++ [(55, "IBM"), (50, "sub")])
+  == ([("3", 2, [(57, "sub"), (371, "50"), (372, "D"), (45, "2")])], [], 3, "InSession")
+#guard c06ReactV (c06CfgV { Validate.defaultSettings with checkOrder := false } false) (c06Hdr "D" ++ [(55, "IBM"), (50, "sub")])
+  == ([], [.fromApp "2" 2], 3, "InSession")
+#guard c06ReactV (c06CfgV Validate.defaultSettings false) (c06Hdr "D" ++ [(55, "")])
+  == ([("3", 2, [(373, "4"), (371, "55"), (372, "D"), (45, "2")])], [], 3, "InSession")
+#guard c06ReactV (c06CfgV { Validate.defaultSettings with checkHaveValues := false } false) (c06Hdr "D" ++ [(55, "")])
+  == ([], [.fromApp "2" 2], 3, "InSession")
+-- a Logon the validator refuses (HeartBtInt missing) is not shown to FromAdmin and establishes nothing
+#guard (traceOf (initSess c06CfgV 1 1) [.connect, .incomingMsg (some { f := c06Hdr "A" "1" ++ [(98, "0")] })]).filter isCb == []
+#guard (traceOf (initSess c06CfgV 1 1) [.connect, .incomingMsg (some { f := c06Hdr "A" "1" ++ [(98, "0"), (108, "30")] })]).filter isCb
+  == [.fromAdmin "A" "1", .onLogon]
+-- the hypotheses of C06_reaction_validation hold of the live session and the order without Symbol
+#guard validate c06CfgV { f := c06Hdr "D" ++ [(54, "1")] } matches some (.plain 1 (some 55) false)
 -- the hypotheses of the table rows are satisfiable together (kernel-checked on a symbolic message)
 example : SeqChecked { f := [(35, "D")] } := by
   refine ⟨?_, ?_, ?_, ?_⟩ <;> simp [kindOf, Fields.get?]
@@ -388,6 +585,13 @@ Clause checklist (properties.jsonl C06 → theorems)
         C06_gate_verify_blocked (contrapositive: state untouched), C06_gate_verify_passes (the gate is exactly the condition),
         C06_gate_all_histories + C06_nothing_without_gate (every cfg / counters / history: each callback is about an inbound
         message of the history passing BeginString, CompIDs, validation), C06_time_gate_all_histories (SendingTime)
+* … and it passes message validation (every validator setting, with and without data dictionaries)
+      : `GateMsg.valid` in all of the above is `validate cfg m = none`, the verdict of the configured validator (C15's model);
+        C06_gate_validation_site / _verdict (delivery site), C06_gate_validation_logon (Logon site: not even FromAdmin),
+        C06_gate_validation + C06_nothing_without_validation (every history: each callback is about a message the validator
+        accepts), C06_reaction_validation + C06_reaction_validation_reject + C06_obs_reject (the Reject carries the
+        validator's reason and tag, the number is consumed), C06_validation_verdict_shape, C06_validation_default /
+        _dictionary (what `validate` is in the two kinds of configuration); `#guard`s on a hand-built dictionary
 * a Logon establishes the session only if …                          : C06_gate_logon (+ OnLogon clause of C06_gate_all_histories)
 * wrong BeginString ⇒ Logout, expected number unchanged              : C06_reaction_beginstring + C06_obs_logout
 * wrong CompIDs ⇒ Reject 9 then Logout, unchanged                    : C06_reaction_compid + C06_obs_reject_logout
